@@ -1281,6 +1281,35 @@ fn run_overlap_family(cx: &Ctx, seed: u64, sets: usize, threads: usize) {
     });
 }
 
+/// leftmost-optimality family (thorough only; C03 / C04 and the leftmost half of C08 are decided by the stand-in alone as far as
+/// "leftmost start, then longest / earliest-registered" goes): EVERY ordered duplicate-free sequence of <= 3 patterns of length 1..4 over
+/// {a,b}, both leftmost kinds, every haystack of length <= 7 over {a,b} and every haystack of length <= 5 with one foreign symbol.
+fn run_leftmost_deep(cx: &Ctx, threads: usize) {
+    if !(cx.on("C03") || cx.on("C04") || cx.on("C08")) { return; }
+    let alpha: Vec<Vec<u8>> = vec![b"a".to_vec(), b"b".to_vec()];
+    let strings = all_strings(&alpha, 1, 4);
+    let mut hays = all_strings(&alpha, 1, 7);
+    hays.push(vec![]);
+    let mut alpha_f = alpha.clone(); alpha_f.push(b"c".to_vec());
+    for h in all_strings(&alpha_f, 1, 5) { if h.contains(&b'c') { hays.push(h); } }
+    let n = strings.len();
+    let mut seqs: Vec<Vec<usize>> = vec![];
+    for a in 0..n { for b in 0..n { if a != b { seqs.push(vec![a, b]); for c in 0..n { if c != a && c != b { seqs.push(vec![a, b, c]); } } } } }
+    let chunk = (seqs.len() + threads - 1) / threads;
+    std::thread::scope(|sc| {
+        for part in seqs.chunks(chunk.max(1)) {
+            let strings = &strings; let hays = &hays;
+            sc.spawn(move || {
+                for s in part {
+                    let pats: Vec<Vec<u8>> = s.iter().map(|&i| strings[i].clone()).collect();
+                    let vals: Vec<u32> = (0..pats.len() as u32).map(|i| 3 + i * 5).collect();
+                    for kind in [MatchKind::LeftmostLongest, MatchKind::LeftmostFirst] { check_set(cx, &pats, &vals, kind, &[16], hays, true); }
+                }
+            });
+        }
+    });
+}
+
 /// long-chain family: runs of one byte value longer than several blocks, so that whole 256-slot blocks are filled by the children of
 /// single-child states (every BASE value of a block in use), alone and next to short patterns; small num_free_blocks closes such blocks.
 fn run_chain_family(cx: &Ctx, thorough: bool) {
@@ -1413,6 +1442,7 @@ fn main() {
         run_overlap_family(&cx, seed, 1500000, threads);
         run_overlap_family(&cx, seed + 1, 500000, threads);
         run_chain_family(&cx, true);
+        run_leftmost_deep(&cx, threads);
         run_boundary_chars(&cx);
     } else {
         run_small(&cx, &a1, &[0x02], 3, 3, 6, false, &nfbs, threads, Some((seed, 3)));
